@@ -89,7 +89,13 @@ pub fn generate(tier: &str, rng: &mut Rng) -> Vec<String> {
         bytes.extend(frame(0, &m));
         let start3 = bytes.len();
         bytes.extend(frame(0, &small));
-        let chunks = chunkings(rng, &bytes, &[0, start2, start3], 3);
+        // (quick: a single cut inside the big payload — every further chunk makes the Lean model copy its buffer once more)
+        let chunks = if thorough || *len < m24 {
+            chunkings(rng, &bytes, &[0, start2, start3], 3)
+        } else {
+            let cut = start2 + 5 + rng.below(*len as u64) as usize;
+            vec![bytes[..cut].to_vec(), bytes[cut..].to_vec()]
+        };
         let evs = events_from_chunks(rng, chunks, true);
         out.push(DecCase { dir: if i % 2 == 0 { "req".into() } else { "resp200".into() }, enc: None, max: Some(1 << 25), buf_size: *rng.pick(&BUF_SIZES), evs, stream: bytes, extra_polls: 1 }.line());
     }
